@@ -2,3 +2,5 @@ import Biobalm.Basic
 import Biobalm.Percolation
 import Biobalm.Dynamics
 import Biobalm.Trap
+import Biobalm.Key
+import Biobalm.Shannon
